@@ -32,7 +32,7 @@ FRONTIER_KNOBS = irprops.frontier_knobs((
     "untyped_param", "undocumented_param", "default_without_prose", "bare_param", "str_with_space",
     "empty_str", "str_with_quote",
     "nodefault_after_default", "returns", "returns_default", "returns_untyped",
-    "returns_undocumented", "returns_only", "multiline_prose", "foreign_tokens",
+    "returns_undocumented", "returns_only", "multiline_prose", "foreign_tokens", "foreign_tokens_strong",
 ))
 FLOORS = {"has_default": 0.3, "style=numpydoc": 0.15, "style=google": 0.15, "style=rest": 0.15}
 
